@@ -400,6 +400,32 @@ func afterColon(s string) string {
 	return s
 }
 
+// runC08RdnsRealTime: the same batch on the REAL clock. Goroutines of the code under test that wait for each other
+// on a mutex are not "durably blocked" for testing/synctest, so a serialised fan-out would stall a bubble instead of
+// showing up as virtual time; this case sees it as wall-clock time. The discrimination is coarse on purpose
+// (N stalled lookups: one 5 s timeout when concurrent, N x 5 s when serialised; the verdict threshold is 11 s).
+func runC08RdnsRealTime(c *fw.Ctx, id string) {
+	resetProcessState()
+	old := reversedns.LookupAddrFn
+	reversedns.LookupAddrFn = func(ctx context.Context, addr string) ([]string, error) {
+		<-ctx.Done()
+		return nil, ctx.Err()
+	}
+	defer func() { reversedns.LookupAddrFn = old }()
+	var l []net.IP
+	for i := 0; i < 4; i++ {
+		l = append(l, net.IP(parseIP(fmt.Sprintf("198.51.77.%d", 10+i))))
+	}
+	t0 := time.Now()
+	reversedns.GetReverseDnsForIPs(l)
+	el := time.Since(t0)
+	c.Nontrivial("rdns-realtime")
+	c.Count("rdns_realtime_ms", int(el.Milliseconds()))
+	if el > 11*time.Second {
+		c.Violate("C08", "rdns-serialised", fmt.Sprintf("%s: 4 stalled lookups took %v of real time; concurrent lookups share one 5 s timeout", id, el.Round(100*time.Millisecond)), nil)
+	}
+}
+
 func runC08Rdns(c *fw.Ctx, id string, r *rand.Rand) {
 	resetProcessState()
 	release := make(chan struct{})
@@ -510,6 +536,8 @@ func checkC08() fw.Check {
 		Assumptions:   []string{"UDP and TCP entry points take no context by construction: only engine runs and the ICMP/SACK entry points are judged for cancellation", "unbounded 'eventually' is restated as explicit virtual-time bounds; a hang is what the 4x watchdog observes", "Linux build"},
 		Gen: func(tier string, seed int64) []fw.Case {
 			var cases []fw.Case
+			// first: if this one already shows a serialised fan-out, the bubble cases below would stall on it
+			cases = append(cases, fw.Case{ID: "C08/rdns-realtime", Run: func(c *fw.Ctx) { runC08RdnsRealTime(c, c.ID) }})
 			wins := []window{{1, 6}}
 			if tier == "thorough" {
 				wins = []window{{1, 6}, {250, 255}, {1, 30}}
